@@ -33,6 +33,10 @@ class Unsupported(Exception):
 # types
 
 
+def has_opt(t: Ty) -> bool:
+	return t[0] == 'opt' or any(isinstance(c, tuple) and has_opt(c) for c in t[1:])
+
+
 def ty_annot(t: Ty) -> str:
 	k = t[0]
 	if k in ('int', 'float', 'bool', 'str'):
@@ -191,9 +195,12 @@ class Gen:
 		if depth <= 0:
 			return leaf
 		leaf = [(w * 0.4, f) for w, f in leaf]
+		# two expressions of a container-of-optional type may be inferred differently (list<int>, list<None>, list<Union<int, None>>);
+		# their ternary is a Union of containers, on which tranp resolves no operator or method: kept out of the generated domain
+		tern_w = 0.0 if has_opt(t) else 0.7
 		generic = [
 			(0.5, lambda: self.group(t, depth)),
-			(0.7, lambda: self.ternary(t, depth)),
+			(tern_w, lambda: self.ternary(t, depth)),
 			(0.8, lambda: self.index_into(t, depth)),
 			(0.4, lambda: self.call_returning(t, depth)),
 		]
